@@ -114,6 +114,8 @@ SYSTEMS = [
     ('sc', [1, 1, 0], [1, 0, 0], [0, 0, 1], 'sc 001 45deg'),
     ('b2', [1, 0, 0], [0, 1, -1], [0, 1, 1], 'B2 011 edge'),
     ('b2', [1, 1, 1], [1, 1, 1], [1, -1, 0], 'B2 110 screw'),
+    # rounding leaves the atoms of one row on the motion-direction box faces partly on the lower, partly on the upper face
+    ('bcc', [-.5, .5, .5], [-1, 1, 1], [1, 1, 0], 'bcc 110 screw b=-111 (face row split by wrap)'),
 ]
 if THOROUGH:
     # further symmetry-equivalent variants (different signs / first hits in the integer-vector search)
@@ -122,7 +124,6 @@ if THOROUGH:
         ('fcc', [-.5, 0, .5], [1, 2, 1], [1, -1, 1], 'fcc 1-11 edge'),
         ('fcc', [.5, .5, 0], [0, 1, 1], [-1, 1, -1], 'fcc -11-1 60deg'),
         ('fcc', [.5, -.5, 0], [2, -1, -1], [1, 1, 1], 'fcc 111 30deg'),
-        ('bcc', [-.5, .5, .5], [-1, 1, 1], [1, 1, 0], 'bcc 110 screw b=-111'),
         ('bcc', [.5, -.5, .5], [1, 2, 1], [1, 0, -1], 'bcc 10-1 edge'),
         ('bcc', [.5, .5, -.5], [1, -1, 0], [1, 1, 2], 'bcc 112 edge b=11-1'),
         ('hcp', [-1 / 3, 2 / 3, -1 / 3, 0], [-1, 2, -1, 0], [0, 0, 0, 1], 'hcp basal screw a2'),
